@@ -83,7 +83,7 @@ class MsgSerializable(Serializable):
 
         # remaining header fields: command, msg length, checksum
         command = recvbuf[4:4+12].split(b"\x00", 1)[0]
-        msglen = struct.unpack(b"<i", recvbuf[4+12:4+12+4])[0]
+        msglen = struct.unpack(b"<I", recvbuf[4+12:4+12+4])[0]
         checksum = recvbuf[4+12+4:4+12+4+4]
 
         # read message body
